@@ -107,9 +107,9 @@ class MonitorExec(Exec):
             self.mspec.on_exit(self, s)
         return self.obligations[nob:]
 
-    def oblige(self, st, kind, label, goal, lineno, clause=None):
+    def oblige(self, st, kind, label, goal, lineno, clause=None, keep=False):
         n = len(self.obligations)
-        super().oblige(st, kind, label, goal, lineno, clause)
+        super().oblige(st, kind, label, goal, lineno, clause, keep)
         for ob in self.obligations[n:]:
             ob.mon = {'pre': st.mon.get('pre'), 'tid': st.mon['tid'], 'spec': self.mspec,
                       'env': dict(st.env)}
@@ -134,10 +134,15 @@ class MonitorExec(Exec):
 
     # statements -------------------------------------------------------------------------------
     def st_Expr(self, s, st):
+        if isinstance(s.value, ast.Call) and isinstance(s.value.func, ast.Name):
+            h = self.ms.intrinsics.get('stmt:' + s.value.func.id)
+            if h is not None:
+                return h(self, st, s.value)
         if isinstance(s.value, ast.Yield):
+            val = self.eval(s.value.value, st) if s.value.value is not None else NONE
+            st.mon['yield_value'] = val
             self.mspec.before_yield(self, st, s)
             self.segment_end(st, 'yield', s)
-            val = self.eval(s.value.value, st) if s.value.value is not None else NONE
             st.mon['yielded'] = True
             self.segment_start(st, 'yield')
             self.mspec.after_yield(self, st)
